@@ -234,6 +234,23 @@ class C17(Prop):
                 if ctx.returns(e, "C17.intersection.is_empty", regular=text, form=form):
                     ctx.expect(e.value is want_empty, "C17.intersection.is_empty", regular=text, form=form,
                                got=e.value, want=want_empty)
+                if form == "regex" and k % 4 == 0:
+                    # the result intersected again, with everything: the same verdict
+                    # (intersection() ends with remove_useless_rules(), as slow as the emptiness test itself)
+                    ctx.horizon, keep = 1.0, ctx.horizon
+                    again = ctx.call(lambda: i.value.intersection(Regex("(a|b)*")))
+                    ctx.horizon = keep
+                    if again.kind == "timeout":
+                        ctx.notes["intersection_inconclusive_slow"] = ctx.notes.get("intersection_inconclusive_slow", 0) + 1
+                    elif ctx.returns(again, "C17.intersection", regular=text, form="(g & r) & (a|b)*"):
+                        ctx.horizon, keep = 1.0, ctx.horizon
+                        e2 = ctx.call(again.value.is_empty)
+                        ctx.horizon = keep
+                        if e2.kind == "timeout":
+                            ctx.notes["intersection_inconclusive_slow"] = ctx.notes.get("intersection_inconclusive_slow", 0) + 1
+                        elif ctx.returns(e2, "C17.intersection.is_empty", regular=text, form="(g & r) & (a|b)*"):
+                            ctx.expect(e2.value is want_empty, "C17.intersection.is_empty", regular=text,
+                                       form="(g & r) & (a|b)*", got=e2.value, want=want_empty)
 
     @property
     def SCOPES(self):
